@@ -76,6 +76,18 @@ def monitor_trace(tr):
         op, out, b, a = rec['op'], rec['out'], rec['before'], rec['after']
         kind = op[0]
         tags[kind] += 1
+        if isinstance(out, dict) and 'independence' in out:
+            viol.append(dict(prop='C20', i=rec['i'], sig=dict(kind='not-independent', what=out['independence']['what']),
+                             msg='using the restored copy changed the original (%s)' % out['independence']['what']))
+        if kind == 'clone':
+            if out.get('clone') != 'ok':
+                viol.append(dict(prop='C20', i=rec['i'], sig=dict(kind='unpicklable', exc=out.get('exc')), msg='dill round-trip failed: %r' % (out,)))
+            else:
+                for fld, what in (('same_state', 'cache contents / statistics / archive'), ('same_cfg', 'configuration'), ('wrapped', '__wrapped__')):
+                    if not out[fld]:
+                        viol.append(dict(prop='C20', i=rec['i'], sig=dict(kind='copy-differs', field=fld),
+                                         msg='restored copy differs in %s: original %r copy %r' % (what, out.get('orig'), out.get('copy'))))
+            continue
         if kind in ('clear', 'off', 'on', 'setarch', 'extdel') or b['arch'] is None:
             evaluated_ok = set()    # the property allows re-evaluation after these
         if kind not in ('call', 'callbad'):
